@@ -52,7 +52,10 @@ COLS = [('slice', [1, None]), ('list', [2, 0]), ('perm', [1, 2, 0]),
         # boolean masks (full width; width 2, valid only after a narrowing selection), runs of negative indices
         ('mask', [False, True, True, False, True]), ('mask', [False, True]), ('list', [-2, -1]),
         # a single channel as an integer (the result loses its channel axis), an empty selection
-        ('int', 2), ('int', -1), ('list', [])]
+        ('int', 2), ('int', -1), ('list', []),
+        # an index ARRAY with a negative entry; the harness hands out ONE array object per selector, as a caller who keeps its
+        # channel selection in a variable does
+        ('arr', [-1, 0]), ('arr', [1, -2])]
 
 
 def alphabet():
@@ -72,6 +75,14 @@ def alphabet():
     return ops
 
 
+_ARR_CACHE = {}
+
+
+def arrays_intact():
+    """The selector arrays the harness keeps (and re-uses) still hold what they were created with."""
+    return all(a.tolist() == list(k) for k, a in _ARR_CACHE.items())
+
+
 def arg_value(arg):
     if isinstance(arg, dict) and 'np' in arg:
         return np.dtype(arg['np']).type(arg['v'])
@@ -80,6 +91,11 @@ def arg_value(arg):
             return slice(*arg['v'])
         if arg['c'] == 'perm':
             return np.array(arg['v'])
+        if arg['c'] == 'arr':
+            key = tuple(arg['v'])
+            if key not in _ARR_CACHE:
+                _ARR_CACHE[key] = np.array(arg['v'])
+            return _ARR_CACHE[key]
         if arg['c'] == 'mask':
             return np.array(arg['v'], dtype=bool)
         if arg['c'] == 'int':
@@ -142,7 +158,7 @@ def plan(tier, seed):
     return [{'shard': i, 'n': NSHARDS, 'seed': seed, 'tier': tier} for i in range(NSHARDS)]
 
 
-ROW_ITEMS = [slice(None), 3, slice(-4, -1), [0, 2, 5]]
+ROW_ITEMS = [slice(None), 3, slice(-4, -1), [0, 2, 5], slice(3, 3)]        # (an empty range keeps the expression's dtype and width)
 
 
 class Readers(object):
@@ -339,6 +355,14 @@ def _big_index(case, ctx):
 
 def run_case(case, ctx):
     with np.errstate(all='ignore'):
+        _run_case(case, ctx)
+    if not arrays_intact():
+        ctx.violation('inputs_modified', case, 'a channel-selector array kept by the caller was modified: %r' % {k: a.tolist() for k, a in _ARR_CACHE.items()}, {'backend': case.get('backend')})
+        _ARR_CACHE.clear()
+
+
+def _run_case(case, ctx):
+    if True:
         if case['kind'] == 'big_index':
             _big_index(case, ctx)
         elif case['kind'] == 'program':
@@ -395,6 +419,9 @@ def _program(case, ctx):
         x_ = apply_op(x_, op_, arg_)
         coarse_tol = max(coarse_tol, ulp_tol(x_))
     for rows in _rows(case, case['backend'] != 'cbin'):
+        if isinstance(rows, slice) and rows.start is not None and rows.start == rows.stop and not call(lambda: rd[rows]).ok:
+            ctx.note('empty_row_range_refused_by_backend')        # (then it is outside the statement for this backend)
+            continue
         ctx.count(1, key=hkey(pkey, repr(rows)), nontrivial=nontriv,
                   cell=(case['backend'], case['dtype'], 'depth%d' % min(len(prog), 4)))
         rr = call(lambda: lazy.value[rows])
